@@ -112,6 +112,11 @@ func (c *Cluster) onStatusChange(inc *Incarnation, prev, st raft.Status, had boo
 	if c.window != nil {
 		c.window.onStatus(inc, prev, st, had)
 	}
+	if st.State == raft.Leader && had && st.CommitIndex > prev.CommitIndex {
+		if e, ok := inc.Node.Mirror.get(st.CommitIndex); ok && e.Type == raft.ConfigurationEntry {
+			c.Rec.probe("config-entry-committed")
+		}
+	}
 }
 
 func (c *Cluster) onAEReplyDelivered(m *Msg) {
@@ -217,7 +222,7 @@ func (r *Recorder) onFatal(inc *Incarnation, where, stack string) {
 	if r.c.Cfg.ApiFuzz {
 		prop = "C18"
 	}
-	r.violate(prop, "fatal", where, "%s aborted with an internal fatal error in %s\n%s", inc.Name(), where, trimStack(stack))
+	r.violate(prop, "fatal", r.tainted(n, where, "F2", "F3"), "%s aborted with an internal fatal error in %s\n%s", inc.Name(), where, trimStack(stack))
 }
 
 // ------------------------------------------------------------------ snapshots
@@ -238,6 +243,11 @@ func (r *Recorder) snapNew(inc *Incarnation, f *SnapFileWrap) {
 
 func (r *Recorder) snapOpened(inc *Incarnation, f *SnapFileWrap) {
 	md := f.Metadata()
+	if ctx := r.ctxByTask[r.c.Sim.Cur()]; ctx != nil && ctx.Msg.Kind == KindIS && !ctx.restoring {
+		// InstallSnapshot opens the snapshot right before it releases the lock for Restore.
+		ctx.restoring = true
+		inc.restoring++
+	}
 	r.ev("snapopen %s label=%d/%d", inc.Name(), md.LastIncludedIndex, md.LastIncludedTerm)
 }
 
@@ -275,7 +285,7 @@ func (r *Recorder) snapVisible(inc *Incarnation, f *SnapFileWrap) {
 		// C10(c)/C11(e): installed bytes equal a snapshot with that label that some node produced.
 		set := r.visibleSnaps[key]
 		if set == nil || !set[h] {
-			r.violate("C11", "installed-bytes-differ", "no-such-snapshot", "%s installed a snapshot labelled %s (%d bytes, hash %x) that no node ever produced with those bytes (known hashes for the label: %d)",
+			r.violate("C11", "installed-bytes-differ", r.tainted(inc.Node, "no-such-snapshot", "F3"), "%s installed a snapshot labelled %s (%d bytes, hash %x) that no node ever produced with those bytes (known hashes for the label: %d)",
 				inc.Name(), key, len(f.written), h, len(set))
 		}
 	} else {
@@ -287,7 +297,7 @@ func (r *Recorder) snapVisible(inc *Incarnation, f *SnapFileWrap) {
 	// C10(a): content = exactly the committed operations up to the label.
 	ops, err := decodeSnapshot(f.written)
 	if err != nil {
-		r.violate("C10", "snapshot-garbage", "undecodable", "%s made a snapshot labelled %s visible whose %d bytes do not decode: %v", inc.Name(), key, len(f.written), err)
+		r.violate("C10", "snapshot-garbage", r.tainted(inc.Node, "undecodable", "F3"), "%s made a snapshot labelled %s visible whose %d bytes do not decode: %v", inc.Name(), key, len(f.written), err)
 		return
 	}
 	r.checkSnapshotContent(inc, md, ops, install)
@@ -309,11 +319,12 @@ func (r *Recorder) checkSnapshotContent(inc *Incarnation, md raft.SnapshotMetada
 		}
 	}
 	if extra > 0 {
+		defer r.setTaint(inc.Node, "F1")
 		r.violate("C10", "snapshot-label-mismatch", "extra-entries-"+src,
 			"%s: snapshot labelled %d/%d (%s) contains %d operation(s) beyond its label (last contained index %d)",
 			inc.Name(), label, md.LastIncludedTerm, src, extra, ops[len(ops)-1].Index)
 	}
-	r.checkOpsArePrefix(inc, ops, "snapshot labelled "+fmt.Sprint(label))
+	r.checkOpsArePrefix(inc, ops, src+" snapshot labelled "+fmt.Sprint(label))
 	// None missing: every committed operation entry up to the label is in the snapshot.
 	missing := []uint64{}
 	for i := uint64(1); i <= label; i++ {
@@ -322,7 +333,7 @@ func (r *Recorder) checkSnapshotContent(inc *Incarnation, md raft.SnapshotMetada
 		}
 	}
 	if len(missing) > 0 {
-		r.violate("C10", "snapshot-label-mismatch", "missing-entries-"+src,
+		r.violate("C10", "snapshot-label-mismatch", r.tainted(inc.Node, "missing-entries-"+src, "F2", "F3"),
 			"%s: snapshot labelled %d/%d (%s) lacks committed operation(s) at %v", inc.Name(), label, md.LastIncludedTerm, src, missing)
 	}
 	if reg, ok := r.Reg[label]; ok && reg.Term != md.LastIncludedTerm {
@@ -374,17 +385,43 @@ func sameMembers(a, b raft.Configuration) bool {
 
 // ------------------------------------------------------------------ heal phase (C15) and final checks
 
+// votersNow returns the voters of the latest committed configuration (the
+// bootstrap voters while membership is static).
+func (c *Cluster) votersNow() map[string]bool {
+	if !c.Cfg.Membership && !c.Cfg.ApiFuzz {
+		return c.bootVoters
+	}
+	r := c.Rec
+	for i := r.RegMax; i >= 1; i-- {
+		reg, ok := r.Reg[i]
+		if !ok || !reg.Full || reg.Type != raft.ConfigurationEntry {
+			continue
+		}
+		if conf, ok := r.confSeen[confKey{i, reg.Term}]; ok {
+			out := map[string]bool{}
+			for id, v := range conf.IsVoter {
+				if v {
+					out[id] = true
+				}
+			}
+			return out
+		}
+	}
+	return c.bootVoters
+}
+
 func (c *Cluster) majorityOfBootVotersUp() bool {
+	voters := c.votersNow()
 	v, up := 0, 0
 	for _, n := range c.Nodes {
-		if c.bootVoters[n.ID] {
+		if voters[n.ID] {
 			v++
 			if n.Inc != nil && n.Inc.Up {
 				up++
 			}
 		}
 	}
-	return up*2 > v
+	return v > 0 && up*2 > v
 }
 
 func (c *Cluster) healPhase() {
@@ -437,7 +474,7 @@ func (c *Cluster) healPhase() {
 	detail := ""
 	for c.Sim.Now() < deadline {
 		c.sleepMs(int64(cfg.ElectionMs)/4 + 1)
-		if !c.majorityOfBootVotersUp() && !cfg.Membership {
+		if !c.majorityOfBootVotersUp() {
 			// A node died for a reason of its own (fatal): the premise of C15 is gone.
 			r.probe("heal-premise-lost")
 			r.ev("heal-discarded")
@@ -483,15 +520,21 @@ func (c *Cluster) livenessCause(stage string) string {
 	if stage != "not-converged" {
 		return stage
 	}
+	cause := "log-repair"
 	for _, n := range c.Nodes {
 		if n.Inc == nil || !n.Inc.haveStatus {
 			continue
 		}
 		if n.Mirror.first() > 0 {
-			return "with-snapshot"
+			cause = "with-snapshot"
 		}
 	}
-	return "log-repair"
+	// A node left in an inconsistent state by the unlocked restore window of InstallSnapshot
+	// (F2) or by a mixed snapshot file (F3) may never recover: that is their consequence.
+	if c.lagging != nil {
+		cause = c.Rec.tainted(c.lagging, cause, "F2", "F3")
+	}
+	return cause
 }
 
 func (c *Cluster) statusLine() string {
@@ -509,25 +552,35 @@ func (c *Cluster) statusLine() string {
 	return strings.Join(parts, " ")
 }
 
-// uniqueLeader returns the single up node reporting Leader with the maximum term, else nil.
+// uniqueLeader returns the single up node reporting Leader whose term is the maximum
+// among the members of its own configuration (a removed-but-running node may campaign
+// with ever higher terms without anybody listening: that is C16's business), else nil.
 func (c *Cluster) uniqueLeader() *Node {
 	var leaders []*Node
-	maxTerm := uint64(0)
+	for _, n := range c.upNodes() {
+		if n.Inc.haveStatus && n.Inc.lastStatus.State == raft.Leader {
+			leaders = append(leaders, n)
+		}
+	}
+	if len(leaders) != 1 {
+		return nil
+	}
+	l := leaders[0]
+	conf, ok := c.configuration(l.Inc)
 	for _, n := range c.upNodes() {
 		if !n.Inc.haveStatus {
 			continue
 		}
-		if n.Inc.lastStatus.Term > maxTerm {
-			maxTerm = n.Inc.lastStatus.Term
+		if ok && (c.Cfg.Membership || c.Cfg.ApiFuzz) {
+			if _, member := conf.Members[n.ID]; !member {
+				continue
+			}
 		}
-		if n.Inc.lastStatus.State == raft.Leader {
-			leaders = append(leaders, n)
+		if n.Inc.lastStatus.Term > l.Inc.lastStatus.Term {
+			return nil
 		}
 	}
-	if len(leaders) != 1 || leaders[0].Inc.lastStatus.Term != maxTerm {
-		return nil
-	}
-	return leaders[0]
+	return l
 }
 
 func (c *Cluster) laggard(leader *Node) string {
@@ -542,9 +595,13 @@ func (c *Cluster) laggard(leader *Node) string {
 				continue
 			}
 		}
+		// "Caught up" is about position, not content: equality of content at a
+		// position is what C01/C10 check, and must not be reported twice here.
 		sm := n.Inc.SM
-		if len(sm.Ops) != len(lsm.Ops) || sm.chain != lsm.chain {
-			return fmt.Sprintf("%s has applied %d operations, leader %s has %d", n.ID, len(sm.Ops), leader.ID, len(lsm.Ops))
+		if !n.Inc.haveStatus || n.Inc.lastStatus.LastApplied != leader.Inc.lastStatus.LastApplied || sm.lastIndexSinceRestore != lsm.lastIndexSinceRestore {
+			c.lagging = n
+			return fmt.Sprintf("%s has applied up to index %d (last operation %d), leader %s up to %d (last operation %d)",
+				n.ID, n.Inc.lastStatus.LastApplied, sm.lastIndexSinceRestore, leader.ID, leader.Inc.lastStatus.LastApplied, lsm.lastIndexSinceRestore)
 		}
 	}
 	return ""
@@ -564,7 +621,11 @@ func (r *Recorder) checkInstanceComplete(inc *Incarnation, a *authSeq) {
 			if o.Index < a.idx[k] || (k > 0 && o.Index <= inc.SM.Ops[k-1].Index) {
 				what = "applied-twice"
 			}
-			r.violate("C10", "replica-"+what, "sequence", "%s: its %d-th applied operation is index %d, but the %d-th committed operation is index %d (%s)",
+			taints := []string{"F1", "F2"}
+			if what == "skipped" {
+				taints = []string{"F3"}
+			}
+			r.violate("C10", "replica-"+what, r.tainted(inc.Node, "sequence", taints...), "%s: its %d-th applied operation is index %d, but the %d-th committed operation is index %d (%s)",
 				inc.Name(), k+1, o.Index, k+1, a.idx[k], what)
 			return
 		}
@@ -589,6 +650,7 @@ func (c *Cluster) finalChecks() {
 	// C18: nothing may be blocked forever. At this point every client future had
 	// time to resolve (the heal phase is longer than any timeout).
 	c.checkHangs()
+	c.checkApiHangs()
 	_ = sort.Strings
 	_ = simrt.Dead
 }
